@@ -22,14 +22,6 @@ def build():
         raise Harness("the shadow crate does not build from /repo/impl/src:\n" + out[-6000:])
 
 
-def build_dev_profile():
-    """The same sources under cargo's dev profile (debug assertions, overflow checks, no optimisation)."""
-    rc, out = sh(["cargo", "build", "--offline", "--target-dir", os.path.join(BUILD, "sessim-dev")], cwd=CRATE)
-    if rc != 0:
-        raise Harness("the shadow crate does not build in the dev profile:\n" + out[-4000:])
-    return os.path.join(BUILD, "sessim-dev", "debug", "sessim")
-
-
 def drive(seed, sessions, start, selfcheck_every, tag, ref_exe=None):
     out = os.path.join(BUILD, "sessim-%s.json" % tag)
     if os.path.exists(out):
@@ -104,18 +96,6 @@ def do_check(tier, seed, t0):
         # every minimised divergence must replay; if none does, the simulator (not the repo) is at fault
         raise Harness("no divergence reproduced on replay: %s" % unreproduced)
     layers["A1_native_session"] = {k: a[k] for k in a if k not in ("samples", "violations", "errors", "_rc")}
-
-    # ---- thorough: the references come from a *dev-profile* build of the same sources, the sessions from the
-    #      release build: the expansion must not depend on how derive_more itself was compiled
-    if tier == "thorough" and not viol_lines:
-        dev = build_dev_profile()
-        p = drive(seed, 240, 100000, 0, "a1dev", ref_exe=dev)
-        if p["error_count"]:
-            raise Harness("sessim harness errors (dev-profile references): %s" % p["errors"])
-        for v in p["violations"]:
-            viol_lines.append("VIOLATION property=C19 replay=%s" % v["replay"])
-            log("  %s: %s [references from the dev-profile build]" % (v["replay"], v["what"]))
-        layers["A1_release_sessions_vs_dev_profile_references"] = {k: p[k] for k in ("sessions", "requests", "reference_processes", "divergent_sessions", "run_s")}
 
     # ---- layer A3: the real proc-macro dylib inside the real rustc
     import c19_a3
